@@ -15,15 +15,15 @@ theorem build_declaration (m : Mode) (len : Nat) (env : Env) (v : StrSpan) (e : 
     build m len env (.declaration v e s sp :: ts) lexErr = build m len env ts lexErr := by
   simp [build, Builder.run, Builder.step, hv]
 
-/-- If the tokenizer returns (up to positions) a token list on which `build` succeeds, `parseString`
-    succeeds with the same tree, interning tables and id map. -/
+/-- If the tokenizer returns (up to positions, an absent prefix at offset 0) a token list on which
+    `build` succeeds, `parseString` succeeds with the same tree, interning tables and id map. -/
 theorem parseString_of_lex (m : Mode) (env : Env) (s : Str) (ts : List Token) (len : Nat) (p : Parsed)
-    (hlex : (lexMode m s).1.map Token.erase = ts.map Token.erase ∧ (lexMode m s).2 = none)
+    (hlex : ReadAsList (lexMode m s).1 ts ∧ (lexMode m s).2 = none)
     (hb : build m len env ts none = .ok p) :
     ∃ p', parseString m env s = .ok p' ∧ p'.tree = p.tree ∧ p'.env = p.env ∧ p'.ids = p.ids := by
   unfold parseString
   rw [hlex.2]
-  exact build_erase_ok m len (strLen s) env ts (lexMode m s).1 hlex.1.symm p hb
+  exact build_erase_ok m len (strLen s) env ts (lexMode m s).1 hlex.1.1.symm hlex.1.2 p hb
 
 /-- A whole laid-out document (BOM or not, XML declaration of version 1.0 or not, items, trailing
     white space) whose items are — up to positions — a token list on which `build` succeeds:
@@ -36,11 +36,11 @@ theorem parseString_of_ldoc (env : Env) (ts : List Token) (p0 : Parsed)
   obtain ⟨ts', e, he⟩ := lexDocument_layout_doc d hok
   have hitems : (d.items.map LToken.token).map Token.erase = ts.map Token.erase := by rw [← hl, List.map_map]
   have hlex : ∀ us : List Token, d.tokens.map Token.erase = us.map Token.erase →
-      (lexMode .document d.render).1.map Token.erase = us.map Token.erase ∧
+      ReadAsList (lexMode .document d.render).1 us ∧
         (lexMode .document d.render).2 = none := by
     intro us hus
     rw [show lexMode .document d.render = (ts', none) from e]
-    exact ⟨he.trans hus, rfl⟩
+    exact ⟨⟨he.1.trans hus, he.2⟩, rfl⟩
   cases hdec : d.decl with
   | none =>
     obtain ⟨p, hp, ht, hev, _⟩ := parseString_of_lex .document env _ _ 0 p0
